@@ -666,6 +666,11 @@ func (e *Engine) step(fr *Frame, st *State, ins ssa.Instruction) []fork {
 		fr.env[x] = OpaqueV{Ref: e.freshVar("chan", SRef), T: x.Type()}
 	case *ssa.Send:
 		e.event(st, "send")
+		cur, ok := st.ghost["sends"].(*Term)
+		if !ok {
+			cur, _ = e.ghostInit(st, "sends").(*Term)
+		}
+		st.ghost["sends"] = Add(cur, Num(1))
 	case *ssa.Select:
 		// nondeterministic choice among states (and default when non-blocking)
 		tt := x.Type().(*types.Tuple)
@@ -1199,7 +1204,18 @@ func (e *Engine) strConcat(st *State, x, y StrV) StrV {
 	}
 	arr := App("tq_splice", SArrB, x.Arr, Add(x.Off, x.Len), y.Arr, y.Off, y.Len)
 	ln := Add(x.Len, y.Len)
-	return StrV{Arr: arr, Off: x.Off, Len: ln}
+	var parts []StrV
+	if len(x.Cat) > 0 {
+		parts = append(parts, x.Cat...)
+	} else {
+		parts = append(parts, x)
+	}
+	if len(y.Cat) > 0 {
+		parts = append(parts, y.Cat...)
+	} else {
+		parts = append(parts, y)
+	}
+	return StrV{Arr: arr, Off: x.Off, Len: ln, Cat: parts, Taint: x.Taint || y.Taint}
 }
 
 // valueEq: structural equality of two values as a term.
